@@ -21,3 +21,24 @@ package transform
 //@   trusted
 //@   ensures result2 == nil ==> result1 <= len(dst) && result0 <= len(src)
 //@   modifies this.skipFlags, src[*], dst[*]
+
+//@ -- ------------------------------------------------------------------ codec names (C15)
+//@ -- the pinned name table of the transforms (type 4, SNAPPY, is obsolete: no name)
+//@ spec tname(t uint64) = t == 0 ? "NONE" : (t == 1 ? "BWT" : (t == 2 ? "BWTS" : (t == 3 ? "LZ" : (t == 5 ? "RLT" : (t == 6 ? "ZRLT" : (t == 7 ? "MTFT" : (t == 8 ? "RANK" : (t == 9 ? "EXE" : (t == 10 ? "TEXT" : (t == 11 ? "ROLZ" : (t == 12 ? "ROLZX" : (t == 13 ? "SRT" : (t == 14 ? "LZP" : (t == 15 ? "MM" : (t == 16 ? "LZX" : (t == 17 ? "UTF" : (t == 18 ? "PACK" : (t == 19 ? "DNA" : ""))))))))))))))))))
+//@ spec tvalid(t uint64) = 0 <= t && t <= 19 && t != 4
+
+//@ func getByteFunctionNameToken
+//@   mode int
+//@   opt strings smt
+//@   props C15 C10
+//@   ensures result1 == nil <==> tvalid(functionType)                           #accepts-exactly-the-table
+//@   ensures result1 == nil ==> result0 == tname(functionType)                  #name-of-type
+//@   modifies nothing
+
+//@ func getByteFunctionTypeToken
+//@   mode int
+//@   opt strings smt
+//@   props C15 C10
+//@   ensures result1 == nil ==> tvalid(result0) && tname(result0) == upper(name)             #type-of-name-any-case
+//@   ensures result1 != nil ==> (forall t uint64 :: tvalid(t) ==> tname(t) != upper(name))   #rejects-only-unknown
+//@   modifies nothing
